@@ -131,8 +131,23 @@ FunctorSem(args, b) ==
 (* ---------------- output: print, print_list, nl (C04) ---------------- *)
 (* text of a GROUND constant argument; the generators only print atoms and     *)
 (* small integers (given literally or through variable chains)                  *)
-Printable(t, b) == LET w == Walk(t, b) IN w.k = "atom" \/ (w.k = "int" /\ w.e = 0)
-TextOf(t, b)    == WordText(Walk(t, b))
+(* text of a ground argument as Display shows it: atoms, small integers, complex   *)
+(* terms f(a, b), h() and proper lists [a, b] of such terms                        *)
+RECURSIVE Showable(_), ShowT(_), ShowTs(_)
+Showable(r) == \/ r.k = "atom" \/ (r.k = "int" /\ r.e = 0)
+               \/ (r.k = "cx" /\ \A i \in DOMAIN r.a : Showable(r.a[i]))
+               \/ (r.k = "list" /\ r.t = <<>> /\ \A i \in DOMAIN r.a : Showable(r.a[i]))
+ShowT(r) == CASE r.k = "atom" -> r.s
+              [] r.k = "int"  -> ToString(r.n)
+              [] r.k = "cx"   -> r.s \o "(" \o ShowTs(r.a) \o ")"
+              [] r.k = "list" -> "[" \o ShowTs(r.a) \o "]"
+ShowTs(ts) == IF ts = <<>> THEN ""
+              ELSE IF Len(ts) = 1 THEN ShowT(ts[1])
+              ELSE ShowT(Head(ts)) \o ", " \o ShowTs(Tail(ts))
+(* the argument itself, or the value its variable chain ends in, must be ground as  *)
+(* written (a term with bound variables INSIDE it is not claimed)                   *)
+Printable(t, b) == Showable(Walk(t, b))
+TextOf(t, b)    == ShowT(Walk(t, b))
 
 (* print(fmt, a1..an): the %s markers of fmt are given as the pieces between    *)
 (* them: fmt is an atom whose text has no marker (concatenation), or the case   *)
